@@ -1,3 +1,4 @@
+// build: no-xen
 //! C04: histories of data-moving accessors on ONE container (VolatileSlice / MmapRegion /
 //! GuestRegionMmap) laid over a real buffer with margins; after every operation the whole buffer
 //! (margins included) is read back through the RAW pointer and diffed against the previous state.
